@@ -389,6 +389,9 @@ func writeEvidence(res *Result, prop, tier string, seed int, verif string, wall 
 	for k, v := range res.Extra {
 		cov[k] = v
 	}
+	if res.Assumptions == nil {
+		res.Assumptions = []string{"go/types and go/ssa model the program faithfully; the default linux/amd64 build configuration is analysed"}
+	}
 	ev := map[string]interface{}{
 		"property_id": prop,
 		"tier":        tier,
